@@ -20,15 +20,29 @@ SOURCES = ["mls-rs-crypto-openssl/src/lib.rs", "mls-rs-crypto-awslc/src/lib.rs",
            "mls-rs-core/src/crypto.rs", "mls-rs-crypto-traits/src/lib.rs", "mls-rs-crypto-openssl/src/aead.rs", "mls-rs-crypto-awslc/src/aead.rs",
            "mls-rs-crypto-rustcrypto/src/aead.rs", "mls-rs-crypto-openssl/src/kdf.rs", "mls-rs-crypto-awslc/src/kdf.rs", "mls-rs-crypto-rustcrypto/src/kdf.rs"]
 
-# divergence class (prefix) -> known-finding key
-KNOWN_CLASSES = [("mac/empty-key", "F18"), ("sign-malformed-key", "F19"), ("x509/notAfter-boundary", "F20"), ("notAfter-boundary", "F20"),
-                 ("x509/anchor-pathlen", "F21"), ("anchor-pathlen", "F21"), ("x509/reordered-accepted", "F22"), ("reordered-accepted", "F22"),
-                 ("x509/trailing-certs-ignored", "F23"), ("trailing-certs-ignored", "F23")]
+# divergence class -> known-finding key.  Exact class names (a new divergence of a neighbouring kind is NOT covered); `*` stands for
+# the fixed, enumerated variants of one and the same recorded divergence.
+KNOWN_CLASSES = {
+    "F18": ["mac/empty-key/accepted-by:awslc+rustcrypto", "mac/empty-key/accepted-by:awslc", "mac/empty-key/accepted-by:rustcrypto"],
+    "F19": ["sign-malformed-key/long/accepted-by:openssl", "sign-malformed-key/short/accepted-by:openssl", "sign-malformed-key/zeros/accepted-by:awslc+openssl"],
+    "F20": ["x509/notAfter-boundary", "notAfter-boundary"],
+    "F21": ["x509/anchor-pathlen", "anchor-pathlen"],
+    "F22": ["x509/reordered-accepted", "reordered-accepted"],
+    "F23": ["x509/trailing-certs-ignored", "trailing-certs-ignored"],
+    # NIST public keys in another encoding than the uncompressed one
+    "F42": ["kem-validate/p256-infinity", "kem-validate/p384-infinity", "kem-validate/p521-infinity-accepted-by-all",
+            "kem-validate/p256-hybrid", "kem-validate/p384-hybrid", "hpke-seal/p256-hybrid", "hpke-seal/p384-hybrid",
+            "kem-validate/p256-compact", "kem-validate/p384-compact", "hpke-seal/p256-compact", "hpke-seal/p384-compact"],
+    "F43": ["kem-generate/secret-length-p256", "kem-generate/secret-length-p384"],
+    "F44": ["x509/outer-sigalg-mismatch"],
+    "F45": ["x509/trailing-bytes-in-der", "x509/trailing-bytes-in-der-intermediate", "x509/trailing-bytes-in-der-anchor"],
+    "F46": ["x509-reader/identity-differs-multi-valued-rdn", "x509-reader/identity-differs-unknown-oid-before-cn", "x509-reader/identity-differs-bmpstring-cn"],
+}
 
 
 def key_of(cls):
-    for pre, k in KNOWN_CLASSES:
-        if cls.startswith(pre):
+    for k, classes in KNOWN_CLASSES.items():
+        if cls in classes:
             return k
     return None
 
